@@ -31,6 +31,8 @@ type Engine struct {
 	timeoutS int
 	thorough bool
 	dumpDir string
+	noGroup bool // -nogroup: check every postcondition clause on its own in the first pass
+	noSlice bool // -noslice: send the whole function VC with every obligation
 	loadS   float64
 	pureDepsOf map[string][]string
 }
@@ -136,6 +138,31 @@ func (e *Engine) typeByName(s string) types.Type {
 	if strings.HasPrefix(s, "*") {
 		ptr = true
 		s = s[1:]
+	}
+	if strings.HasPrefix(s, "map[") && !ptr { // map[K]V
+		depth := 0
+		for k := 3; k < len(s); k++ {
+			if s[k] == '[' {
+				depth++
+			} else if s[k] == ']' {
+				depth--
+				if depth == 0 {
+					kt, vt := e.typeByName(s[4:k]), e.typeByName(s[k+1:])
+					if kt == nil || vt == nil {
+						return nil
+					}
+					return types.NewMap(kt, vt)
+				}
+			}
+		}
+		return nil
+	}
+	if strings.HasPrefix(s, "[]") && !ptr {
+		et := e.typeByName(s[2:])
+		if et == nil {
+			return nil
+		}
+		return types.NewSlice(et)
 	}
 	i := strings.LastIndex(s, ".")
 	if i < 0 {
@@ -245,13 +272,21 @@ const prelude = `(set-option :produce-models true)
 (define-fun nilS () Slice (mkS 0 0 0 0))
 (declare-fun implements (Int Int) Bool)
 (declare-fun fnid (Int) Int)
+%IX%
 (define-fun godiv ((a Int) (b Int)) Int (ite (>= a 0) (ite (> b 0) (div a b) (- (div a (- b)))) (ite (> b 0) (- (div (- a) b)) (div (- a) (- b)))))
 (define-fun gomod ((a Int) (b Int)) Int (- a (* b (godiv a b))))
 `
 
 func (vc *FuncVC) header() string {
 	var b strings.Builder
-	b.WriteString(prelude)
+	ixDecl := ""
+	for _, it := range vc.items { // the index function (and its defining axiom) only where slices are indexed
+		if (it.ob == nil && strings.Contains(it.line, "(ix ")) || (it.ob != nil && (strings.Contains(it.ob.f.S, "(ix ") || strings.Contains(it.ob.pc.S, "(ix "))) {
+			ixDecl = "(declare-fun ix (Int Int) Int)\n(assert (forall ((a!q Int) (b!q Int)) (! (= (ix a!q b!q) (+ a!q b!q)) :pattern ((ix a!q b!q)))))"
+			break
+		}
+	}
+	b.WriteString(strings.Replace(prelude, "%IX%", ixDecl, 1))
 	b.WriteString(vc.ss.declStructs())
 	sp := vc.eng.specs
 	known := func(srt string) bool {
@@ -344,14 +379,107 @@ func (vc *FuncVC) script(only *Obligation, withModel bool) string {
 func (vc *FuncVC) scriptShard(only *Obligation, withModel bool, shard, nshards int) string {
 	var b strings.Builder
 	b.WriteString(vc.header())
-	for _, it := range vc.items {
+	n := len(vc.obls)
+	inShard := func(ob *Obligation) bool { // contiguous chunks: neighbouring obligations arise in neighbouring blocks
+		return ob.idx*nshards/n == shard
+	}
+	// slice: lines and assumed obligations emitted in a block that cannot reach any block in which a
+	// checked obligation arises say nothing about the paths to it; leaving them out only removes assumptions
+	var targets []*ssa.BasicBlock
+	all := false
+	for _, ob := range vc.obls {
+		if (only == nil && inShard(ob)) || only == ob {
+			if ob.blk == nil {
+				all = true
+			} else {
+				targets = append(targets, ob.blk)
+			}
+		}
+	}
+	relevant := func(blk *ssa.BasicBlock) bool {
+		if all || blk == nil || vc.eng.noSlice {
+			return true
+		}
+		for _, t := range targets {
+			if vc.canReach(blk, t) {
+				return true
+			}
+		}
+		return false
+	}
+	relCache := map[*ssa.BasicBlock]bool{}
+	rel := func(blk *ssa.BasicBlock) bool {
+		if v, ok := relCache[blk]; ok {
+			return v
+		}
+		v := relevant(blk)
+		relCache[blk] = v
+		return v
+	}
+	// postconditions at one return (same path condition) are checked jointly first: one query for the
+	// conjunction; only if that is not "unsat" are the clauses checked one by one (second pass) to name the failing one
+	groups := map[int][]int{}
+	items := vc.items
+	for i := 0; i < len(items); i++ {
+		it := items[i]
 		if it.ob == nil {
-			b.WriteString(it.line)
-			b.WriteString("\n")
+			if rel(it.blk) {
+				b.WriteString(it.line)
+				b.WriteString("\n")
+			}
 			continue
 		}
 		ob := it.ob
-		if (only == nil && ob.idx%nshards == shard) || only == ob {
+		if only == nil && !vc.eng.noGroup && ob.Kind == "post" && ob.Expect == "unsat" && ob.Verdict != "no-contract" {
+			// collect the group; lines in between are definitions of named terms: emitted first
+			var members []*Obligation
+			j := i
+			for ; j < len(items); j++ {
+				if items[j].ob == nil {
+					continue
+				}
+				o2 := items[j].ob
+				if o2.Kind != "post" || o2.Expect != "unsat" || o2.pc.S != ob.pc.S {
+					break
+				}
+				members = append(members, o2)
+			}
+			// j: first item that is an obligation outside the group; trailing line items stay for the main loop
+			last := i
+			for k := i; k < j; k++ {
+				if items[k].ob != nil {
+					last = k
+				}
+			}
+			for k := i; k <= last; k++ {
+				if items[k].ob == nil && rel(items[k].blk) {
+					b.WriteString(items[k].line)
+					b.WriteString("\n")
+				}
+			}
+			if inShard(ob) {
+				fmt.Fprintf(&b, "(echo \"@OB %d\")\n(push 1)\n(assert %s)\n(assert (not (and", ob.idx, ob.pc.S)
+				for _, m := range members {
+					b.WriteString(" ")
+					b.WriteString(m.f.S)
+				}
+				if len(members) == 1 {
+					b.WriteString(" true")
+				}
+				b.WriteString(")))\n(check-sat)\n(pop 1)\n")
+				var ids []int
+				for _, m := range members {
+					ids = append(ids, m.idx)
+				}
+				groups[ob.idx] = ids
+			}
+			i = last
+			continue
+		}
+		if ob.skipCheck && only == nil {
+			continue
+		}
+		if (only == nil && inShard(ob)) || only == ob {
 			fmt.Fprintf(&b, "(echo \"@OB %d\")\n(push 1)\n(assert %s)\n", ob.idx, ob.pc.S)
 			if ob.Expect == "unsat" {
 				fmt.Fprintf(&b, "(assert (not %s))\n", ob.f.S)
@@ -365,11 +493,54 @@ func (vc *FuncVC) scriptShard(only *Obligation, withModel bool, shard, nshards i
 		if only == ob {
 			break
 		}
-		if ob.Expect == "unsat" && ob.Kind != "nocontract" {
+		// (postconditions at returns and invariants at back edges end their path: nothing after them can use them)
+		if ob.Expect == "unsat" && ob.Kind != "nocontract" && ob.Kind != "post" && ob.Kind != "inv.keep" && ob.Kind != "inv.init" && rel(ob.blk) {
 			fmt.Fprintf(&b, "(assert %s)\n", imp(ob.pc, ob.f).S)
 		}
 	}
+	if only == nil {
+		vc.groupMu.Lock()
+		if vc.groups == nil {
+			vc.groups = map[int][]int{}
+		}
+		for k, v := range groups {
+			vc.groups[k] = v
+		}
+		vc.groupMu.Unlock()
+	}
 	return b.String()
+}
+
+// canReach: is there a path from block a to block b in the control-flow graph of the function under verification
+func (vc *FuncVC) canReach(a, b *ssa.BasicBlock) bool {
+	if a == b {
+		return true
+	}
+	if a.Parent() != b.Parent() {
+		return true
+	}
+	vc.reachMu.Lock()
+	defer vc.reachMu.Unlock()
+	if vc.reachTo == nil {
+		vc.reachTo = map[*ssa.BasicBlock]map[*ssa.BasicBlock]bool{}
+	}
+	m, ok := vc.reachTo[b]
+	if !ok {
+		m = map[*ssa.BasicBlock]bool{b: true}
+		stack := []*ssa.BasicBlock{b}
+		for len(stack) > 0 {
+			x := stack[len(stack)-1]
+			stack = stack[:len(stack)-1]
+			for _, p := range x.Preds {
+				if !m[p] {
+					m[p] = true
+					stack = append(stack, p)
+				}
+			}
+		}
+		vc.reachTo[b] = m
+	}
+	return m[a]
 }
 
 type solver struct {
@@ -440,6 +611,28 @@ func (vc *FuncVC) solve(tmpdir string) {
 	if len(tag) > 120 {
 		tag = tag[:120]
 	}
+	// reachability of returns is evidence against vacuity, not a proof obligation; "sat" answers in the
+	// presence of quantifiers are the slowest queries, so the quick tier samples them (thorough: all)
+	if !vc.eng.thorough {
+		var covers []*Obligation
+		for _, ob := range vc.obls {
+			if ob.Kind == "cover.info" {
+				covers = append(covers, ob)
+			}
+		}
+		const maxCovers = 12
+		if len(covers) > maxCovers {
+			keep := map[int]bool{}
+			for k := 0; k < maxCovers; k++ {
+				keep[k*(len(covers)-1)/(maxCovers-1)] = true
+			}
+			for i, ob := range covers {
+				if !keep[i] {
+					ob.skipCheck = true
+				}
+			}
+		}
+	}
 	full := vc.script(nil, false)
 	if vc.eng.dumpDir != "" {
 		os.WriteFile(filepath.Join(vc.eng.dumpDir, tag+".smt2"), []byte(full), 0644)
@@ -470,6 +663,9 @@ func (vc *FuncVC) solve(tmpdir string) {
 			go func() {
 				defer wgs.Done()
 				sc := vc.scriptShard(nil, false, sh, nsh)
+				if vc.eng.dumpDir != "" {
+					os.WriteFile(filepath.Join(vc.eng.dumpDir, fmt.Sprintf("%s_shard%d.smt2", tag, sh)), []byte(sc), 0644)
+				}
 				o, _ := runSolver(solvers[0], sc, tmo, time.Duration(tmo*(len(vc.obls)/nsh+1)+10)*time.Second, tmpdir, fmt.Sprintf("%s_sh%d", tag, sh))
 				r := parseResults(o)
 				mus.Lock()
@@ -482,6 +678,16 @@ func (vc *FuncVC) solve(tmpdir string) {
 		}
 		wgs.Wait()
 		secs = time.Since(t0).Seconds()
+	}
+	// a group answered "unsat" discharges all its members; any other answer leaves them all for the second pass
+	for leader, ids := range vc.groups {
+		r, ok := res[leader]
+		delete(res, leader)
+		if ok && r == "unsat" {
+			for _, id := range ids {
+				res[id] = "unsat"
+			}
+		}
 	}
 	per := secs / float64(len(vc.obls))
 	var pending []*Obligation
@@ -499,6 +705,11 @@ func (vc *FuncVC) solve(tmpdir string) {
 			continue
 		}
 		if ob.Kind == "cover.info" {
+			if ob.skipCheck {
+				ob.Verdict = "reachability-not-checked"
+				ob.TimeS = 0
+				continue
+			}
 			if r == "sat" {
 				ob.Verdict = "reachable"
 			} else if r == "unsat" {
